@@ -173,7 +173,7 @@ def run(chk):
 
 def judge(chk, q, desc, has_endlib):
     oc = q.get("outcome")
-    if oc in ("panic", "abort", "timeout"):
+    if oc in ("panic", "abort", "timeout", "not-run"):
         msg = (q.get("msg") or "")[:80]
         chk.violation(f"reader-{oc}", "GdsLibrary::from_bytes", desc, {"msg": q.get("msg"), "loc": q.get("loc")})
         return
